@@ -68,8 +68,12 @@ type Spec struct {
 	// Mode "sync": every packed message is delivered inside the sender's Send call and the call returns only when
 	// the receiver has finished reacting (its own replies delivered the same way): replies race the sender's persistence.
 	Mode string `json:"mode,omitempty"`
-	Seed uint64 `json:"seed"`
-	Note string `json:"note,omitempty"`
+	// Restart: "target" = the attacked agents (both honest agents when there is no attack) are stopped and started
+	// again over their persisted stores between the honest part and the attacks; "random" = additionally an honest
+	// agent is restarted between two steps of the schedule with probability 1/6.
+	Restart string `json:"restart,omitempty"`
+	Seed    uint64 `json:"seed"`
+	Note    string `json:"note,omitempty"`
 }
 
 type exchRun struct {
@@ -206,6 +210,14 @@ func (r *runner) post(a *Agent, p *preState, input func(cid int, my string) stri
 		outs = append(outs, "OReject")
 	}
 
+	// the model has no failing send: a request whose reply could not be packed/posted (the record is abandoned although
+	// the agent had already drawn its own DID for it) is left to the direct oracle
+	if newC != "" && len(outs) == 0 {
+		if rec := a.Record(newC); rec != nil && rec.State == "abandoned" && rec.MyDID != "" && rec.NS == "their" {
+			r.w.noCoq("the agent's reply to a request could not be packed or posted")
+		}
+	}
+
 	t.inputs = append(t.inputs, input(r.w.cid(newC), r.w.cDoc(my)))
 	t.obs = append(t.obs, r.w.snapshot(t, outs))
 }
@@ -325,12 +337,30 @@ func (r *runner) deliver(p *Packet) {
 	r.post(dst, pre, func(c int, my string) string { return fmt.Sprintf("IRecv %s %d %s", m, c, my) }, p.HandlerErr != nil, docID)
 }
 
+// restart stops an honest agent and starts it again over its persisted stores (an input of the agent's history).
+func (r *runner) restart(a *Agent) {
+	pre := r.pre(a)
+
+	if err := a.Restart(); err != nil {
+		r.w.setInconclusive("restart failed: " + err.Error())
+
+		return
+	}
+
+	r.res.obs["restarts"] = fmt.Sprint(r.res.obs["restarts"], a.Name[:1])
+	r.post(a, pre, func(int, string) string { return "IRestart" }, false, "")
+}
+
 // drain delivers queued packets in a seeded order until the network is quiet.
 func (r *runner) drain(local []func()) {
 	for {
 		n := r.w.net.QueueLen()
 		if n == 0 && len(local) == 0 {
 			return
+		}
+
+		if r.spec.Restart == "random" && r.spec.Mode != "sync" && r.rng.Intn(6) == 0 {
+			r.restart([]*Agent{r.w.A, r.w.B}[r.rng.Intn(2)])
 		}
 
 		k := r.rng.Intn(n + len(local))
@@ -737,6 +767,23 @@ func runCase(spec *Spec, kind string, idx int) *hx.Record {
 		r.checkAll("honest")
 	}
 
+	if spec.Restart != "" && w.inconclusive == "" && res.fail == "" {
+		targets := map[string]bool{}
+		for _, at := range spec.Attacks {
+			targets[at.Target] = true
+		}
+
+		for _, a := range []*Agent{w.A, w.B} {
+			if targets[a.Name] || len(spec.Attacks) == 0 {
+				r.restart(a)
+			}
+		}
+
+		if w.inconclusive == "" {
+			r.checkAll("restart")
+		}
+	}
+
 	if len(spec.Late) > 0 && w.inconclusive == "" && res.fail == "" {
 		var mixed []func()
 
@@ -849,7 +896,7 @@ func runCase(spec *Spec, kind string, idx int) *hx.Record {
 		res.obs["direct-oracle-only"] = w.coqWhy
 	}
 	rec.Observed = res.obs
-	rec.Class = fmt.Sprintf("%v|%v|%v|%v|%d", spec.Cfg, spec.Exch, spec.Late, spec.Attacks, completed)
+	rec.Class = fmt.Sprintf("%v|%v|%v|%v|%s%s|%d", spec.Cfg, spec.Exch, spec.Late, spec.Attacks, spec.Mode, spec.Restart, completed)
 	rec.Dist = []string{"cfg:" + spec.Cfg.Profile + "/" + spec.Cfg.KeyType + "/" + spec.Cfg.KAType, fmt.Sprintf("exchanges:%d", len(spec.Exch)),
 		fmt.Sprintf("completed:%d", completed)}
 
@@ -859,6 +906,10 @@ func runCase(spec *Spec, kind string, idx int) *hx.Record {
 
 	if len(spec.Late) > 0 {
 		rec.Dist = append(rec.Dist, "attacks-interleaved-with-exchanges")
+	}
+
+	if spec.Restart != "" {
+		rec.Dist = append(rec.Dist, "restart:"+spec.Restart)
 	}
 
 	for _, a := range spec.Attacks {
@@ -1144,6 +1195,75 @@ func (r *runner) attack(at Attack) error {
 		th := uuid.New().String()
 
 		if e := send(request(th, inv.ID, fakeDID, doc), inv); e != nil {
+			return e
+		}
+
+		r.drain(nil)
+
+		return send(map[string]interface{}{"@type": dxComplete, "@id": uuid.New().String(),
+			"~thread": map[string]interface{}{"thid": th, "pthid": inv.ID}}, inv)
+	case "req-keysteal-notation", "req-keysteal-indy", "req-keysteal-indy-didkey", "req-keysteal-second-block", "req-keysteal-v2-block":
+		// mallory's own exchange with a document that lists the victim's key in the OTHER notation (raw base58 <-> did:key)
+		// among the recipient keys, or in an additional service block (IndyAgent / a second did-communication / DIDCommMessaging)
+		if len(victimKeys) == 0 {
+			return fmt.Errorf("victim keys unknown")
+		}
+
+		vk := victimKeys[0]
+		other := vk
+
+		if ck := canonKey(vk); strings.HasPrefix(ck, "raw:") {
+			var rawk []byte
+
+			fmt.Sscanf(ck[4:], "%x", &rawk)
+
+			if strings.HasPrefix(vk, "did:key:") {
+				other = base58.Encode(rawk)
+			} else {
+				other, _ = fingerprint.CreateDIDKey(rawk)
+			}
+		}
+
+		var dm map[string]interface{}
+		if e := json.Unmarshal([]byte(rename(fakeDID)), &dm); e != nil {
+			return e
+		}
+
+		svcs, _ := dm["service"].([]interface{})
+		if len(svcs) == 0 {
+			return fmt.Errorf("document without service")
+		}
+
+		first, _ := svcs[0].(map[string]interface{})
+		block := func(typ string, keys ...string) map[string]interface{} {
+			return map[string]interface{}{"id": fakeDID + "#extra", "type": typ, "priority": 1, "recipientKeys": keys,
+				"serviceEndpoint": w.M.Endpoint}
+		}
+
+		switch at.Kind {
+		case "req-keysteal-notation":
+			rk, _ := first["recipientKeys"].([]interface{})
+			first["recipientKeys"] = append(rk, other)
+		case "req-keysteal-indy":
+			svcs = append(svcs, block("IndyAgent", other, vk))
+		case "req-keysteal-indy-didkey":
+			svcs = append(svcs, block("IndyAgent", vk))
+		case "req-keysteal-second-block":
+			svcs = append(svcs, block("did-communication", other, vk))
+		case "req-keysteal-v2-block":
+			svcs = append(svcs, block("DIDCommMessaging", vk, other))
+		}
+
+		dm["service"] = svcs
+
+		docb, e := json.Marshal(dm)
+		if e != nil {
+			return e
+		}
+
+		th := uuid.New().String()
+
+		if e := send(request(th, inv.ID, fakeDID, string(docb)), inv); e != nil {
 			return e
 		}
 
@@ -1534,7 +1654,8 @@ func base58ish(r *hx.Rng, n int) string {
 // ---------- generators ----------
 
 var attackKinds = []string{"req-repoint", "req-repoint-badpthid", "req-repoint-keys", "req-repoint-endpoint", "req-repoint-routing", "req-docid-mismatch",
-	"req-docid-fresh", "lc-req-repoint", "req-id-remap", "req-id-remap-known", "resp-case-remap", "resp-case-remap-wrapper", "complete-case-remap", "ping-from-spoof", "rotate-takeover", "rotate-takeover-relkid", "req-nodoc", "req-keysteal", "init-repoint",
+	"req-docid-fresh", "lc-req-repoint", "req-id-remap", "req-id-remap-known", "resp-case-remap", "resp-case-remap-wrapper", "complete-case-remap", "ping-from-spoof", "rotate-takeover", "rotate-takeover-relkid", "req-nodoc", "req-keysteal", "req-keysteal-notation", "req-keysteal-indy", "req-keysteal-indy-didkey", "req-keysteal-second-block",
+	"req-keysteal-v2-block", "init-repoint",
 	"complete-replay", "req-same-thread", "resp-forge", "ping-unknown", "owner-reuse"}
 
 func main() {
@@ -1646,6 +1767,32 @@ func main() {
 		}
 	}
 
+	// every attack after a restart of the attacked agent (what was stored must be as binding as before)
+	for _, ak := range attackKinds {
+		for _, target := range []string{"alice", "bob"} {
+			st := []string{"dx", "oob", "legacy"}[rng.Intn(3)]
+			add("restart", &Spec{Cfg: cfgs[0], Seed: rng.U64(), Exch: []Exch{{Inviter: "alice", Invitee: "bob", Style: st}, withM(target)},
+				Attacks: []Attack{{Kind: ak, Target: target}}, Restart: "target"})
+		}
+	}
+
+	// honest exchanges with restarts between any two steps
+	for _, st := range styles {
+		for k := 1; k <= 2; k++ {
+			s := &Spec{Cfg: cfgs[0], Seed: rng.U64(), Restart: "random"}
+			for j := 0; j < k; j++ {
+				e := Exch{Inviter: "alice", Invitee: "bob", Style: st}
+				if j == 1 {
+					e = Exch{Inviter: "bob", Invitee: "alice", Style: st}
+				}
+
+				s.Exch = append(s.Exch, e)
+			}
+
+			add("restart", s)
+		}
+	}
+
 	// a forged legacy response overtaking the genuine one (the signature by the invitation key is what tells them apart)
 	for _, lst := range []string{"legacy", "legacy-didkey", "legacy-pubdid", "legacy-implicit"} {
 		for _, f := range []string{"key", "liar"} {
@@ -1725,6 +1872,10 @@ func main() {
 
 		for j, n := 0, 1+rng.Intn(4); j < n; j++ {
 			s.Attacks = append(s.Attacks, Attack{Kind: attackKinds[rng.Intn(len(attackKinds))], Target: target})
+		}
+
+		if rng.Intn(3) == 0 {
+			s.Restart = []string{"target", "random"}[rng.Intn(2)]
 		}
 
 		if rng.Intn(2) == 0 { // the attacks run while further exchanges are under way
